@@ -178,15 +178,16 @@ REGISTRY = {
                 'native types through recording wrappers, deterministic and random user generators): get_value_c with '
                 'several R, BIOGEME constructions with zero / non-zero seeds, likelihood and simulate on live objects, RNG '
                 'advances, unrelated Monte-Carlo evaluations on the same database with another R between construction and '
-                'use, reconstructions with the same seed, reserved generator names. Distinct = distinct sha256 of (operation '
+                'use, reconstructions with the same seed, reserved generator names, sampled Integrate / Derive evaluations. Distinct = distinct sha256 of (operation '
                 'kinds, number of live objects). Non-trivial = at least 2 draw variables and at least 2 Monte-Carlo values '
                 'matched against recorded series.',
         'components': {'real': REAL, 'stub': ['recording wrappers around native_random_number_generators entries (pass-through)',
                                               'user draw generators supplied by the workload']},
         'assumptions': [
             'partial: decided are the Monte-Carlo mean, the routing of each named draw variable to its own series, the use of '
-            'exactly what the registered generator produced, reproducibility with a non-zero seed; NOT decided: Integrate '
-            '(quadrature accuracy) and Derive (pure numerics)',
+            'exactly what the registered generator produced, reproducibility with a non-zero seed; Integrate (three smooth, '
+            'normally decaying integrand families against adaptive quadrature, 1e-7) and Derive (three formula families against '
+            'central differences of the reference, 1e-6) are only SAMPLED as workload - they are pure numerics',
             'which of the generations recorded during a BIOGEME construction the engine uses is an internal detail: the '
             'oracle is existential over complete recorded generations and then sticks to the matching one',
         ],
